@@ -525,6 +525,26 @@ pub fn gen_cases(seed: u64, tier: Tier) -> Vec<Case> {
             cases.push(Case::Increment { bytes: Hex(b) });
             cases.push(Case::Increment { bytes: Hex(vec![0xff; len]) });
             cases.push(Case::Increment { bytes: Hex(f.bytes(len)) });
+            // every carry-chain length: a run of `r` low-order 0xff bytes followed by a byte that absorbs the carry
+            if fi == 0 {
+                let runs: Vec<usize> = if len <= 72 { (0..=len).collect() } else { vec![0, 1, 7, 8, 9, 15, 16, 17, 23, 24, 25, 31, 32, 63, 64, len / 2, len - 9, len - 8, len - 1, len] };
+                for r in runs {
+                    if r > len {
+                        continue;
+                    }
+                    let mut b = f.bytes(len);
+                    b[..r].fill(0xff);
+                    if r < len {
+                        b[r] = [0x00u8, 0x7f, 0xfe, 0x80][(r + len) % 4];
+                    }
+                    cases.push(Case::Increment { bytes: Hex(b.clone()) });
+                    // and the same with everything above the absorbing byte saturated
+                    if r + 1 < len {
+                        b[r + 1..].fill(0xff);
+                        cases.push(Case::Increment { bytes: Hex(b) });
+                    }
+                }
+            }
         }
     }
     // core functions
